@@ -121,12 +121,12 @@ def lockOp (s : String) : Option LockOp :=
   | 'S' :: r => (String.ofList r).toNat?.map LockOp.signal
   | _ => none
 
-def lockTrace : LockState → List LockOp → List String → Option (List String)
+def lockTrace (rf : Bool) : LockState → List LockOp → List String → Option (List String)
   | s, [], acc => some (acc.reverse ++ [boolStr s.lockFile, toString s.holders.length])
   | s, op :: r, acc =>
     if disciplined s op then
-      let (s', ok) := lockStep s op
-      lockTrace s' r ((if ok then "1" else "0") :: acc)
+      let (s', ok) := lockStep rf s op
+      lockTrace rf s' r ((if ok then "1" else "0") :: acc)
     else none
 
 def handle (op : String) (args : List String) : Option String :=
@@ -142,10 +142,11 @@ def handle (op : String) (args : List String) : Option String :=
     pure (" ".intercalate [boolStr (a.equal b), boolStr a.wf, boolStr b.wf])
   | "lock", [ops] => do
     let ops ← if ops == "." then some [] else (ops.splitOn ",").mapM lockOp
-    match lockTrace lockInit ops [] with
+    match lockTrace Gen.c15RegisterFirst lockInit ops [] with
     | some r => pure (" ".intercalate r)
     | none => pure "undisciplined"
   | "selfcompare", [] => pure (boolStr Gen.c15SelfCompare)
+  | "registerfirst", [] => pure (boolStr Gen.c15RegisterFirst)
   | _, _ => none
 
 end Driver.C15
